@@ -231,22 +231,22 @@ pub fn check_lookups(v: &Value, r: &RVal) -> Result<u64, String> {
 }
 
 /// For every byte offset of `s` that is a character boundary (and `s.len()`),
-/// the number of UTF-16 code units before it.
-fn utf16_offsets(s: &str) -> Vec<usize> {
+/// the offset of that boundary when characters have the lengths given by `w`.
+fn width_offsets(s: &str, w: real::Widths) -> Vec<usize> {
 	let mut v = vec![usize::MAX; s.len() + 1];
 	let mut u = 0usize;
 	for (i, c) in s.char_indices() {
 		v[i] = u;
-		u += c.len_utf16();
+		u += w.of(c);
 	}
 	v[s.len()] = u;
 	v
 }
 
-/// Converts the offsets of an error reported in UTF-16 units back to byte
+/// Converts the offsets of an error reported in the units of `w` back to byte
 /// offsets; `None` when one of them is not a character boundary.
-fn err_to_utf8(e: &PErr, s: &str) -> Option<PErr> {
-	let fwd = utf16_offsets(s);
+fn err_to_utf8(e: &PErr, s: &str, w: real::Widths) -> Option<PErr> {
+	let fwd = width_offsets(s, w);
 	let back = |u: usize| fwd.iter().position(|x| *x == u);
 	Some(match e {
 		PErr::Unexpected(p, c) => PErr::Unexpected(back(*p)?, *c),
@@ -384,6 +384,21 @@ impl Mon {
 						);
 					}
 				}
+				// sources with a (0, None) size hint and sources declaring other character lengths
+				for k in 0..4 {
+					let r = real::parse_unsized_source(k, s, Opts::STRICT);
+					self.rep.count("entry_point_calls", 1);
+					if r.is_ok() != want {
+						self.viol("C01", "entry-disagrees:unsized-source", fam, format!("reference verdict accept={}, iterator entry point #{} over an iter::from_fn source returned {:?}", want, k, r.as_ref().map(|_| "Ok")), b, json!({"entry": "from_fn source", "which": k}));
+					}
+				}
+				for w in real::ALL_WIDTHS {
+					let r = real::parse_widths(s, Opts::STRICT, w, self.tick % 2 == 0);
+					self.rep.count("entry_point_calls", 1);
+					if r.is_ok() != want {
+						self.viol("C01", "entry-disagrees:declared-lengths", fam, format!("reference verdict accept={}, a source declaring {:?} character lengths returned {:?}", want, w, r.as_ref().map(|_| "Ok")), b, json!({"entry": "DecodedChar::new source", "widths": format!("{:?}", w)}));
+					}
+				}
 			} else {
 				let r = real::parse_str(s);
 				self.rep.count("entry_point_calls", 1);
@@ -432,16 +447,18 @@ impl Mon {
 					}
 				}
 			}
-			// the same text through character sources that carry UTF-16 lengths: offsets are then in UTF-16 units
-			if !s.is_ascii() && (self.tick % 8 == 2 || fam == "surrogate-element-sequences" || fam == "lexical-transition-cover") {
+			// the same text through character sources that declare other encoded lengths (UTF-16 units or
+			// bytes, UTF-32, an escaped embedding): offsets are then in those units
+			if self.tick % 8 == 2 || b.len() <= 3 || fam == "surrogate-element-sequences" || fam == "lexical-transition-cover" {
+				let w = real::ALL_WIDTHS[(self.tick as usize / 8) % real::ALL_WIDTHS.len()];
 				for fallible in [false, true] {
-					if let Err(e) = real::parse_utf16_lengths(s, Opts::STRICT, fallible) {
-						self.rep.count("errors_checked_in_utf16_units", 1);
-						match err_to_utf8(&e, s) {
-							None => self.viol("C07", "utf16-lengths:not-a-boundary", fam, format!("with UTF-16 character lengths the error {:?} has an offset that is not a character boundary", e), b, json!({"entry": "parse_with/parse_infallible_with over DecodedChar::from_utf16"})),
+					if let Err(e) = real::parse_widths(s, Opts::STRICT, w, fallible) {
+						self.rep.count("errors_checked_in_other_length_units", 1);
+						match err_to_utf8(&e, s, w) {
+							None => self.viol("C07", "declared-lengths:not-a-boundary", fam, format!("with {:?} character lengths the error {:?} has an offset that is not a character boundary", w, e), b, json!({"entry": "parse_with/parse_infallible_with over DecodedChar::new", "widths": format!("{:?}", w)})),
 							Some(e8) => {
 								if let Err(m) = check_error(rd, &e8) {
-									self.viol("C07", &format!("utf16-lengths:{}", err_name(&e)), fam, format!("with UTF-16 character lengths (offsets converted back to bytes): {}", m), b, json!({"entry": "parse_with/parse_infallible_with over DecodedChar::from_utf16", "error": format!("{:?}", e)}));
+									self.viol("C07", &format!("declared-lengths:{}", err_name(&e)), fam, format!("with {:?} character lengths (offsets converted back to bytes): {}", w, m), b, json!({"entry": "parse_with/parse_infallible_with over DecodedChar::new", "widths": format!("{:?}", w), "error": format!("{:?}", e)}));
 								}
 							}
 						}
@@ -538,26 +555,31 @@ impl Mon {
 			}
 		}
 		self.compare_results(fam, b, rd, &results);
-		// character sources carrying UTF-16 lengths: spans are then in UTF-16 units
+		// character sources that declare other encoded lengths: spans are then in those units
 		if self.flags.c05 && rd.root.is_some() {
 			if let Some(s) = text {
-				if !s.is_ascii() && (self.tick % 2 == 0 || b.len() <= 16) {
-					let m16 = utf16_offsets(s);
+				if self.tick % 2 == 0 || b.len() <= 16 {
+					let w = real::ALL_WIDTHS[(self.tick as usize / 2) % real::ALL_WIDTHS.len()];
+					let m = width_offsets(s, w);
 					for fallible in [false, true] {
-						if let Ok((_, map)) = real::parse_utf16_lengths(s, Opts::STRICT, fallible) {
-							self.rep.count("code_maps_compared_in_utf16_units", 1);
-							let want: Vec<(usize, usize, usize)> = rd.frags.iter().map(|f| (m16[f.start], m16[f.end], f.volume)).collect();
-							if map != want {
-								let i = map.iter().zip(&want).position(|(a, b)| a != b).unwrap_or(map.len().min(want.len()));
-								self.viol(
-									"C05",
-									"utf16-lengths",
-									fam,
-									format!("with UTF-16 character lengths code-map entry {} is {:?}, expected {:?} (in UTF-16 units)", i, map.get(i), want.get(i)),
-									b,
-									json!({"entry": "parse_with/parse_infallible_with over DecodedChar::from_utf16"}),
-								);
+						match real::parse_widths(s, Opts::STRICT, w, fallible) {
+							Ok((v, map)) => {
+								self.rep.count("code_maps_compared_in_other_length_units", 1);
+								let want: Vec<(usize, usize, usize)> = rd.frags.iter().map(|f| (m[f.start], m[f.end], f.volume)).collect();
+								if map != want {
+									let i = map.iter().zip(&want).position(|(a, b)| a != b).unwrap_or(map.len().min(want.len()));
+									self.viol(
+										"C05",
+										"declared-lengths",
+										fam,
+										format!("with {:?} character lengths code-map entry {} is {:?}, expected {:?}", w, i, map.get(i), want.get(i)),
+										b,
+										json!({"entry": "parse_with/parse_infallible_with over DecodedChar::new", "widths": format!("{:?}", w)}),
+									);
+								}
+								self.compare_tree("C05", "parse_with over declared lengths", fam, b, rd, &v);
 							}
+							Err(e) => self.viol("C05", "declared-lengths-rejects", fam, format!("with {:?} character lengths a valid document is rejected: {:?}", w, e), b, json!({"widths": format!("{:?}", w)})),
 						}
 					}
 				}
@@ -1403,7 +1425,13 @@ pub fn fam_large(cfg: &Config, flags: Flags, docs: usize, nodes: usize) -> (Repo
 	let seed = cfg.seed;
 	run_family(cfg, flags, name, docs, &move |i, mon| {
 		let mut rng = Rng::new(seed).fork(0x1a46e + i as u64);
-		let v = if i % 2 == 0 {
+		let v = if i == 1 {
+			// a very wide array and a very wide object (beyond any 64 Ki block of a bulk path)
+			RVal::Arr(vec![
+				RVal::Arr((0..140_000).map(|j| RVal::Num((j % 1000).to_string())).collect()),
+				RVal::Obj((0..70_000).map(|j| (format!("k{}", j), RVal::Bool(j % 3 == 0))).collect()),
+			])
+		} else if i % 2 == 0 {
 			// one wide object: many entries, many duplicates of a few keys
 			let n = nodes.min(20000);
 			let mut entries = Vec::with_capacity(n);
@@ -1471,12 +1499,12 @@ pub fn fam_unicode_sweep(cfg: &Config, flags: Flags) -> (Report, Vec<u8>) {
 	})
 }
 
-/// Multi-byte characters placed around every power-of-two offset from 4 KiB to
-/// 192 KiB (block boundaries of buffered decoders), in valid documents and in
+/// Multi-byte characters placed around every power-of-two offset from 64 bytes to
+/// 128 KiB (block boundaries of buffered decoders), in valid documents and in
 /// documents with an error after the boundary.
 pub fn fam_block_boundaries(cfg: &Config, flags: Flags) -> (Report, Vec<u8>) {
 	let name = "multi-byte-characters-at-block-boundaries";
-	const BLOCKS: [usize; 7] = [4096, 8192, 16384, 32768, 65536, 131072, 196608];
+	const BLOCKS: [usize; 12] = [64, 128, 256, 512, 1024, 2048, 4096, 8192, 16384, 32768, 65536, 131072];
 	run_family(cfg, flags, name, BLOCKS.len() * 13, &|i, mon| {
 		let b = BLOCKS[i / 13];
 		let delta = (i % 13) as isize - 6;
@@ -1526,8 +1554,68 @@ pub fn fam_block_boundaries(cfg: &Config, flags: Flags) -> (Report, Vec<u8>) {
 		}
 		mon.rep.distinct_by_construction(n);
 		if i == 4 * 13 + 3 {
-			mon.rep.sample(json!({"family": name, "input": "\"aaaa...(65532 x a)<U+1F600>tail\" and variants around every offset 2^12..2^17"}));
+			mon.rep.sample(json!({"family": name, "input": "\"aaaa...(65532 x a)<U+1F600>tail\" and variants around every offset 2^6..2^17"}));
 		}
+	})
+}
+
+/// Long strings and keys with a multi-byte character, an escape or an escaped
+/// surrogate pair starting at every offset up to `max` (staging buffers of any size).
+pub fn fam_long_strings(cfg: &Config, flags: Flags, max: usize) -> (Report, Vec<u8>) {
+	let name = "long-strings-with-a-wide-element-at-every-offset";
+	let bs = '\\';
+	let specials: Vec<String> = vec![
+		"\u{e9}".to_string(),
+		"\u{20ac}".to_string(),
+		"\u{1f600}".to_string(),
+		format!("{}u20ac", bs),
+		format!("{}uD83D{}uDE00", bs, bs),
+		format!("{}n", bs),
+	];
+	let specials = std::sync::Arc::new(specials);
+	run_family(cfg, flags, name, 32, &move |i, mon| {
+		let mut n = 0u64;
+		let mut l = i;
+		let mut doc = String::new();
+		while l <= max {
+			for (k, sp) in specials.iter().enumerate() {
+				doc.clear();
+				let head = "a".repeat(l);
+				match (l + k) % 3 {
+					0 => {
+						doc.push('"');
+						doc.push_str(&head);
+						doc.push_str(sp);
+						doc.push_str("tail\"");
+					}
+					1 => {
+						doc.push_str("{\"");
+						doc.push_str(&head);
+						doc.push_str(sp);
+						doc.push_str("\":1,\"");
+						doc.push_str(&head);
+						doc.push_str(sp);
+						doc.push_str("\":[\"");
+						doc.push_str(sp);
+						doc.push_str(&head);
+						doc.push_str("\"]}");
+					}
+					_ => {
+						doc.push_str("[\"");
+						doc.push_str(sp);
+						doc.push_str(&head);
+						doc.push_str(sp);
+						doc.push_str(sp);
+						doc.push_str("\"]");
+					}
+				}
+				mon.input(name, doc.as_bytes());
+				n += 1;
+			}
+			l += 32;
+		}
+		mon.rep.distinct_by_construction(n);
+		mon.rep.max("longest_string_swept", max as u64);
 	})
 }
 
